@@ -1,5 +1,5 @@
 """C03 - loading builds exactly the documented object, through every entry point (structural clauses)."""
-from ..rules import entry, fwd, serial
+from ..rules import entry, fwd, readers, serial
 from ..rules.callgraph import callgraph
 
 EXPLANATION = (
@@ -21,10 +21,10 @@ def c1(ctx):
 
 def c2(ctx):
     serial.table_spec(ctx)
-    serial.reader_multi(ctx)
+    readers.sm_simfile_table(ctx)
     serial.sm_chart_reader(ctx)
-    serial.ssc_chart_opening(ctx)
-    serial.ssc_chart_reader(ctx)
+    readers.ssc_simfile_table(ctx)
+    readers.ssc_chart_table(ctx)
 
 
 def c4(ctx):
